@@ -1,3 +1,4 @@
+import re
 # unit `handler` (C01, C05, C11, C14, C15): proxy_server.rs request path, proxy_connection.rs contexts
 import os, sys
 sys.path.insert(0, os.path.join(os.path.dirname(os.path.dirname(os.path.abspath(__file__))), 'common'))
@@ -29,6 +30,25 @@ def status_e9():
 
 
 CLAIMS_CLONE = ("c: &crate::proxy::Claims", "crate::proxy::Claims", "    ensures r == *c,")
+
+
+# ghost parameters and preconditions of the upstream write path below TcpConnectionContext::send_request
+UPG = "Ghost(tcp): Ghost<TcpConnectionContext>, Ghost(url): Ghost<hyper::Uri>, Ghost(kk): Ghost<KeyKeeperSharedState>, Ghost(orig): Ghost<FwdSpec>"
+UPREQ = """
+        requires may_relay(tcp, url, kk),    // @C01.%(f)s.only_attributed_and_authorized
+                 root_only_respected(tcp),   // @C03.%(f)s.never_for_non_elevated_wireserver_gaplugin_caller_nor_self
+                 relayed_unchanged(%(r)s, orig),   // @C14.%(f)s.method_target_and_client_headers_unchanged
+                 body_relayed_whole(%(r)s, orig),   // @C14+C15.%(f)s.whole_body_within_limit_is_what_is_sent
+                 proxy_owned_headers_are_the_proxys(%(r)s, orig),   // @C05.%(f)s.exactly_one_claims_and_one_date_header_from_the_proxy
+                 client_authorization_replaced_when_signed(%(r)s, orig),   // @C05.%(f)s.client_authorization_header_never_reaches_the_host_when_signed
+                 signature_covers_what_is_sent(%(r)s, orig),   // @C04.%(f)s.signature_over_exactly_what_the_host_receives
+                 key_id_names_signing_key(%(r)s, orig),   // @C10.%(f)s.key_id_names_the_key_that_made_the_mac
+"""
+
+
+# the header vocabulary (literal names, HeaderMap axioms) is made available in the send functions although their present bodies do
+# not touch headers, so that an edit that does is decided on its merits and not for want of a broadcast
+SEND_PRE = "broadcast use group_http_fmt, axiom_fmt_error, axiom_key_view_hn;\nproof { lits_headers(); }"
 
 
 def build(u):
@@ -147,7 +167,23 @@ def build(u):
 """)
         with u.mod("proxy_connection", uses="use crate::shared_state::key_keeper_wrapper::KeyKeeperSharedState;", auto_uses=pc):
             u.take(pc, "RequestBody", "type")
-            u.placeholder_ext(pc, ["Client"], "vx_ph_client", keep=())
+            # Client: the per-connection HTTP/1 client of the host endpoint. Its send_request is verified down to hyper's
+            # SendRequest::send_request, which is THE upstream write primitive (E9 stub carrying the relay preconditions)
+            u.take(pc, "Client", "struct")
+            ci = pc.item("Client::send_request", "fn")
+            hs = [c for c in ci["calls"] if c["kind"] == "method" and c["callee"] == "send_request"]
+            if len(hs) != 1:
+                raise Undecided("Client::send_request: expected exactly one call of hyper's send_request")
+            st = u.enclosing_stmt(ci, hs[0]["span"][0])
+            closed = [c for c in ci["calls"] if c["kind"] == "path" and c["callee"].replace(" ", "") == "Error::Hyper" and not (st[0] <= c["span"][0] < st[1])]
+            with u.impl_(pc, "Client"):
+                u.take_fn(pc, "Client::send_request", ghost=UPG,
+                          pre_body=SEND_PRE,
+                          e9=[(tuple(c["span"]), None, "", "", "Error", "", dict(name="vx_e9_connection_closed_error_%d" % i, local=True)) for i, c in enumerate(closed)] + [
+                              ((st[0], st[1]), None, "sender: &mut http1::SendRequest<RequestBody>, req: Request<RequestBody>, full_url: String, " + UPG,
+                               "&mut self.sender, req, full_url, Ghost(tcp), Ghost(url), Ghost(kk), Ghost(orig)", "Result<hyper::Response<hyper::body::Incoming>>", UPREQ % dict(r="req", f="hyper_send_request"),
+                               dict(name="vx_e9_hyper_send_request", local=True, is_async=True, body=re.sub(r"\bself\.sender\b", "sender", pc.s(st[0], st[1]))))],
+                          contract=UPREQ % dict(r="req", f="Client_send_request"))
             u.take(pc, "ConnectionLogger", "struct")
             with u.impl_(pc, "ConnectionLogger"):
                 u.take(pc, "ConnectionLogger::CONNECTION_LOGGER_KEY", "impl_const")
@@ -162,12 +198,18 @@ def build(u):
 """)
                 u.take_fn(pc, "TcpConnectionContext::log", contract="        ensures *final(self) == *old(self),  // logging only\n", external_body=True)
                 # THE upstream write primitive of the request path: contract = C01 (+ C05/C14 request leg)
-                u.take_fn(pc, "TcpConnectionContext::send_request", external_body=True,
+                u.take_fn(pc, "TcpConnectionContext::send_request", pre_body=SEND_PRE,
                           ghost="Ghost(url): Ghost<hyper::Uri>, Ghost(kk): Ghost<KeyKeeperSharedState>, Ghost(orig): Ghost<FwdSpec>",
+                          ghost_calls=[("send_request", None, "Ghost(*self), Ghost(url), Ghost(kk), Ghost(orig)")],
+                          e9=[("Error::Hyper(HyperErrorType::HostConnection(e.clone()))", None, "e: &String", "e", "Error", "", dict(name="vx_e9_host_connection_error", local=True, body="Error::Hyper(HyperErrorType::HostConnection(e.clone()))"))],
                           contract="""
         requires may_relay(*self, url, kk),    // @C01.send_request.only_attributed_and_authorized
                  root_only_respected(*self),   // @C03.send_request.never_for_non_elevated_wireserver_gaplugin_caller_nor_self
-                 fwd_ok(request, orig),        // @C05+C14+C15.send_request.host_receives_client_request_with_proxy_headers
+                 relayed_unchanged(request, orig),   // @C14.send_request.method_target_and_client_headers_unchanged
+                 body_relayed_whole(request, orig),   // @C14+C15.send_request.whole_body_within_limit_is_what_is_sent
+                 proxy_owned_headers_are_the_proxys(request, orig),   // @C05.send_request.exactly_one_claims_and_one_date_header_from_the_proxy
+                 client_authorization_replaced_when_signed(request, orig),   // @C05.send_request.client_authorization_header_never_reaches_the_host_when_signed
+                 signature_covers_what_is_sent(request, orig),   // @C04.send_request.signature_over_exactly_what_the_host_receives
                  key_id_names_signing_key(request, orig),   // @C10.send_request.key_id_names_the_key_that_made_the_mac
 """)
             u.take(pc, "HttpConnectionContext", "struct")
@@ -189,7 +231,11 @@ def build(u):
                           contract="""
         requires may_relay(self.tcp_connection_context, self.url, kk),    // @C01.HttpConnectionContext_send_request.only_attributed_and_authorized
                  root_only_respected(self.tcp_connection_context),   // @C03.HttpConnectionContext_send_request.never_for_non_elevated_wireserver_gaplugin_caller_nor_self
-                 fwd_ok(request, orig),        // @C05+C14+C15.HttpConnectionContext_send_request.host_receives_client_request_with_proxy_headers
+                 relayed_unchanged(request, orig),   // @C14.HttpConnectionContext_send_request.method_target_and_client_headers_unchanged
+                 body_relayed_whole(request, orig),   // @C14+C15.HttpConnectionContext_send_request.whole_body_within_limit_is_what_is_sent
+                 proxy_owned_headers_are_the_proxys(request, orig),   // @C05.HttpConnectionContext_send_request.exactly_one_claims_and_one_date_header_from_the_proxy
+                 client_authorization_replaced_when_signed(request, orig),   // @C05.HttpConnectionContext_send_request.client_authorization_header_never_reaches_the_host_when_signed
+                 signature_covers_what_is_sent(request, orig),   // @C04.HttpConnectionContext_send_request.signature_over_exactly_what_the_host_receives
                  key_id_names_signing_key(request, orig),   // @C10.HttpConnectionContext_send_request.key_id_names_the_key_that_made_the_mac
 """)
 
@@ -282,6 +328,7 @@ proof {
     assert(hm_view(pre_h).remove(AUTH_H()) =~= h.remove(AUTH_H()));
     assert(hv_view(h[AUTH_H()][0]) =~= sig_value(key_guid@, key@, req_method(proxy_request), req_uri(proxy_request), pre_h, full_view(req_body(proxy_request))));
     assert(auth_signed(proxy_request, key_guid@, key@));   // @C04.handle_request_with_signature.signature_over_what_is_sent
+    assert(names_key_of_mac(hv_view(h[AUTH_H()][0]), key_guid@, key@));
 }"""),
                           ],
                           contract="""
